@@ -188,6 +188,10 @@ def check_tree_valid(node, et, top=False):
         byname = {}
         for c in n.children:
             byname.setdefault(c.name, []).append(c)
+        if sorted(k.tag for k in e) != sorted(c.name for c in n.children):
+            # the output does not hold exactly the shadow's children (a ghost or lost child: C06's business); which
+            # output element is which shadow child cannot be told, so nothing below this level is judged
+            continue
         used = {}
         for k in e:
             lst = byname.get(k.tag)
